@@ -65,6 +65,14 @@ Special == {
       F("a", 1, 13, T_Uint16, 0, 0, 0, 0, "u4"), F("a", 11, 5, T_Coil, 0, 0, 0, 0, "u5"), F("a1", 1, 6, T_Coil, 0, 0, 0, 0, "u6")>>,
     <<F("h:1_2", 3, 1, T_Uint16, 0, 0, 0, 0, "v1"), F("h:1", 23, 2, T_Uint16, 0, 0, 0, 0, "v2"), F("h:12", 3, 3, T_Uint16, 0, 0, 0, 0, "v3"),
       F("h:1", 2, 4, T_Uint16, 0, 0, 0, 0, "v4")>>,
+    \* one group spread over more than half of the address space, a neighbour of the first field added last (an order of
+    \* the slots that is computed from address DIFFERENCES goes round in a circle here)
+    <<F("a:1", 1, 0, T_Uint16, 0, 0, 0, 0, "w1"), F("a:1", 1, 30000, T_Uint16, 0, 0, 0, 0, "w2"), F("a:1", 1, 60000, T_Uint16, 0, 0, 0, 0, "w3"),
+      F("a:1", 1, 1, T_Uint16, 0, 0, 0, 0, "w4")>>,
+    <<F("a:1", 1, 40000, T_Uint16, 0, 0, 0, 0, "x1"), F("a:1", 1, 5, T_Uint16, 0, 0, 0, 0, "x2"), F("a:1", 1, 65535, T_Uint16, 0, 0, 0, 0, "x3"),
+      F("a:1", 1, 32773, T_Uint16, 0, 0, 0, 0, "x4"), F("a:1", 1, 6, T_Uint16, 0, 0, 0, 0, "x5"), F("a:1", 1, 40001, T_Uint16, 0, 0, 0, 0, "x6")>>,
+    <<F("a:1", 1, 100, T_Coil, 0, 0, 0, 0, "y1"), F("a:1", 1, 33000, T_Coil, 0, 0, 0, 0, "y2"), F("a:1", 1, 65000, T_Coil, 0, 0, 0, 0, "y3"),
+      F("a:1", 1, 150, T_Coil, 0, 0, 0, 0, "y4")>>,
     \* the ends of the bit range, on registers whose bits differ from their neighbours'
     <<F("a:1", 1, 12, T_Bit, 15, 0, 0, 0, "b15"), F("a:1", 1, 12, T_Bit, 0, 0, 0, 0, "b0"), F("a:1", 1, 13, T_Bit, 14, 0, 0, 0, "b14"),
       F("a:1", 1, 13, T_Bit, 1, 0, 0, 0, "b1")>>,
